@@ -341,7 +341,7 @@ impl<C: Suite> Model for M10<C> {
 // timestamp variant: protocol machine with the clock as an explicit state variable
 
 pub const TGEN: [u64; 5] = [0, 1, 1_700_000_000_000, 1 << 63, u64::MAX - 10];
-pub const TIMEOUT: [Option<u64>; 6] = [None, Some(0), Some(1), Some(5), Some(1000), Some(u64::MAX)];
+pub const TIMEOUT: [Option<u64>; 8] = [None, Some(0), Some(1), Some(5), Some(1000), Some(u64::MAX), Some((1 << 32) + 1), Some(1 << 40)];
 
 #[derive(Copy, Clone, Debug, PartialEq, Eq, Hash, Serialize, Deserialize)]
 pub enum Delay {
@@ -353,8 +353,11 @@ pub enum Delay {
     To,
     ToPlus1,
     Plus1e9,
+    /// just past 2^32 and 2^48 ms: comparisons done in a narrower type would wrap
+    Plus2p32,
+    Plus2p48,
 }
-pub const DELAYS: [Delay; 8] = [Delay::Zero, Delay::Minus1000, Delay::Minus1, Delay::Plus1, Delay::ToMinus1, Delay::To, Delay::ToPlus1, Delay::Plus1e9];
+pub const DELAYS: [Delay; 10] = [Delay::Zero, Delay::Minus1000, Delay::Minus1, Delay::Plus1, Delay::ToMinus1, Delay::To, Delay::ToPlus1, Delay::Plus1e9, Delay::Plus2p32, Delay::Plus2p48];
 
 #[derive(Copy, Clone, Debug, PartialEq, Eq, Hash, Serialize, Deserialize)]
 pub enum TsTamper {
@@ -414,6 +417,8 @@ fn delay_value(d: Delay, timeout: Option<u64>) -> Option<i128> {
         Delay::Minus1 => -1,
         Delay::Plus1 => 1,
         Delay::Plus1e9 => 1_000_000_000,
+        Delay::Plus2p32 => (1i128 << 32) + 7,
+        Delay::Plus2p48 => (1i128 << 48) + 3,
         Delay::ToMinus1 => timeout? as i128 - 1,
         Delay::To => timeout? as i128,
         Delay::ToPlus1 => timeout? as i128 + 1,
